@@ -549,7 +549,7 @@ class PostgreSQLQueryBuilder(QueryBuilder):
     def _distinct_sql(self, **kwargs: Any) -> str:
         if self._distinct_on:
             return "DISTINCT ON({distinct_on}) ".format(
-                distinct_on=",".join(term.get_sql(with_alias=True, **kwargs) for term in self._distinct_on)
+                distinct_on=",".join(term.get_sql(with_alias=False, **kwargs) for term in self._distinct_on)
             )
         return super()._distinct_sql(**kwargs)
 
@@ -568,7 +568,7 @@ class PostgreSQLQueryBuilder(QueryBuilder):
 
         conflict_query = " ON CONFLICT"
         if self._on_conflict_fields:
-            fields = [f.get_sql(with_alias=True, **kwargs) for f in self._on_conflict_fields]
+            fields = [f.get_sql(with_alias=False, **kwargs) for f in self._on_conflict_fields]
             conflict_query += " (" + ', '.join(fields) + ")"
 
         if self._on_conflict_wheres:
@@ -919,7 +919,7 @@ class ClickHouseQueryBuilder(QueryBuilder):
     def _distinct_sql(self, **kwargs: Any) -> str:
         if self._distinct_on:
             return "DISTINCT ON({distinct_on}) ".format(
-                distinct_on=",".join(term.get_sql(with_alias=True, **kwargs) for term in self._distinct_on)
+                distinct_on=",".join(term.get_sql(with_alias=False, **kwargs) for term in self._distinct_on)
             )
         return super()._distinct_sql(**kwargs)
 
@@ -941,7 +941,7 @@ class ClickHouseQueryBuilder(QueryBuilder):
 
     def _limit_by_sql(self, **kwargs: Any) -> str:
         (n, offset, by) = self._limit_by
-        by = ",".join(term.get_sql(with_alias=True, **kwargs) for term in by)
+        by = ",".join(term.get_sql(with_alias=False, **kwargs) for term in by)
         if offset != 0:
             return f" LIMIT {n} OFFSET {offset} BY ({by})"
         else:
